@@ -85,39 +85,8 @@ def run(ck, prog):
               "lets root selection finish" % why)
 
     # ---- R16.2 ---------------------------------------------------------------------
+    descent_guard(ck, prog, cg, "R16.2")
     ib = prog.body(INCLUDE_INDEX)
-    ck.anchor(ib is not None, "Include::index not found")
-    # is there recursion back to Include::index?
-    rec = cg.path([e.target for e in cg.callees(INCLUDE_INDEX)], lambda p: p == INCLUDE_INDEX)
-    ck.ob("R16.2", "recursion-exists", rec is not None, "Include::index re-enters itself through %s" % (rec or [])[:4],
-          nontrivial=False, msg="anchor-lost: Include::index no longer descends into the included file")
-    descents = [i for i, t in ib.calls() if (Body.callee(t) or "").endswith(" as ide::index::Indexable>::index")]
-    ck.anchor(descents, "Include::index does not call an indexer for the included file")
-    dom = cfg.dominators(ib)
-    guarded = True
-    detail = []
-    for d in descents:
-        g = False
-        for j in dom.get(d, ()):
-            tt = ib.term(j)
-            if tt["k"] != "call":
-                continue
-            c = Body.callee(tt) or ""
-            if SET_TEST.search(c):
-                # keyed by the included file id
-                keyo = set()
-                for a in tt["args"][1:]:
-                    keyo |= prov.origins(ib, a)
-                if any(x[0] == "call" and x[1].endswith("::get") or (x[0] == "call" and "copied" in x[1]) or x[0] in ("call",) for x in keyo):
-                    # polarity: descent must be on the "not seen before" side
-                    if polarity_ok(ib, j, d, c) and not shrinks(prog, ib, tt):
-                        g = True
-                        detail.append(c.rsplit("::", 2)[-2] + "::" + c.rsplit("::", 1)[-1])
-        guarded = guarded and g
-    ck.ob("R16.2", "descent-guard", guarded,
-          "descent is dominated by a visited-set test (%s) on the not-yet-seen branch" % ", ".join(detail),
-          msg="Include::index descends into the included file without a visited-set test keyed by that file: an "
-              "include cycle recurses without bound, and a file included along two paths is indexed twice")
 
     # ---- R16.3 ---------------------------------------------------------------------
     lb = prog.body("ide::handlers::document_link::exec")
@@ -340,3 +309,41 @@ def enumeration_style(prog, b):
     if any(c.endswith("SourceFile::statement_list") for c in calls) and any(c.endswith("StatementList::statements") for c in calls):
         return "top-level"
     return "unknown"
+
+
+def descent_guard(ck, prog, cg, rule):
+    """shared with C05 (a file indexed twice gives every declaration two symbols: references are split between them)"""
+    ib = prog.body(INCLUDE_INDEX)
+    ck.anchor(ib is not None, "Include::index not found")
+    # is there recursion back to Include::index?
+    rec = cg.path([e.target for e in cg.callees(INCLUDE_INDEX)], lambda p: p == INCLUDE_INDEX)
+    ck.ob(rule, "recursion-exists", rec is not None, "Include::index re-enters itself through %s" % (rec or [])[:4],
+          nontrivial=False, msg="anchor-lost: Include::index no longer descends into the included file")
+    descents = [i for i, t in ib.calls() if (Body.callee(t) or "").endswith(" as ide::index::Indexable>::index")]
+    ck.anchor(descents, "Include::index does not call an indexer for the included file")
+    dom = cfg.dominators(ib)
+    guarded = True
+    detail = []
+    for d in descents:
+        g = False
+        for j in dom.get(d, ()):
+            tt = ib.term(j)
+            if tt["k"] != "call":
+                continue
+            c = Body.callee(tt) or ""
+            if SET_TEST.search(c):
+                # keyed by the included file id
+                keyo = set()
+                for a in tt["args"][1:]:
+                    keyo |= prov.origins(ib, a)
+                if any(x[0] == "call" and x[1].endswith("::get") or (x[0] == "call" and "copied" in x[1]) or x[0] in ("call",) for x in keyo):
+                    # polarity: descent must be on the "not seen before" side
+                    if polarity_ok(ib, j, d, c) and not shrinks(prog, ib, tt):
+                        g = True
+                        detail.append(c.rsplit("::", 2)[-2] + "::" + c.rsplit("::", 1)[-1])
+        guarded = guarded and g
+    ck.ob(rule, "descent-guard", guarded,
+          "descent is dominated by a visited-set test (%s) on the not-yet-seen branch" % ", ".join(detail),
+          msg="Include::index descends into the included file without a visited-set test keyed by that file: an "
+              "include cycle recurses without bound, and a file included along two paths is indexed twice")
+
